@@ -139,6 +139,6 @@ theorem EpInv_lookup_add {F : List DG} {σ : RefState} (hσ : SInv F σ) (d : DG
     cases hl : alLookup σ d with
     | none => exact EpInv_empty d
     | some e1 => exact (hσ _ (alLookup_mem hl)).2
-  exact EpInv_add he0 p _ (frag_proto d p ttl)
+  exact EpInv_add he0 p _ (frag_proto d p ttl) (frag_nopt d p ttl)
 
 end Tins.Reasm
